@@ -32,6 +32,10 @@ pub struct Pre {
     /// changed), then the graph itself — both as re-stored by zerokit's own serializer
     #[serde(default)]
     pub sibling_graph: bool,
+    /// 1..=4: an evaluation handed a damaged graph file (its failure, error or panic, is contained)
+    /// comes first; what it leaves behind must not reach the evaluations that follow
+    #[serde(default)]
+    pub damaged_graph: u8,
 }
 
 /// (re-stored bundled graph, same-length sibling with one constant changed)
@@ -145,7 +149,7 @@ impl Property for C05 {
     }
     fn rule(&self) -> String {
         "46-element input assignments (identitySecret, userMessageLimit, messageId, 20 path elements, 20 binary path indices, x, externalNullifier) with values at 64-bit limb boundaries 2^(64k)±{0,1,2}, 2^16±1, within 70000 of p and of p/2, boundary-weighted and uniform; messageId/limit ~70% inside the circuit's range plus its edges (difference exactly 2^16, 2^16+1, equal, messageId >= 2^16); \
-         the complete 5844-element vector of zerokit's graph evaluator is compared (sha256 of the decimal rendering, full vector on mismatch) with the vector circom's own generated calculator (rln.wasm under node) computes; assignments the reference rejects are only counted; evaluation is repeated and the named inputs are supplied in a generated order; 40% of the cases are preceded, on the same thread, by a valid evaluation of a related assignment (x and/or external nullifier changed) and 0..11 rejected evaluations carrying the case's own values plus one malformed signal — the result must not depend on that history; a quarter of those cases evaluate a same-length sibling of the graph file (one constant deep in the node section changed) first and then the bundled graph as re-stored by zerokit's own serializer. \
+         the complete 5844-element vector of zerokit's graph evaluator is compared (sha256 of the decimal rendering, full vector on mismatch) with the vector circom's own generated calculator (rln.wasm under node) computes; assignments the reference rejects are only counted; evaluation is repeated and the named inputs are supplied in a generated order; 40% of the cases are preceded, on the same thread, by a valid evaluation of a related assignment (x and/or external nullifier changed) and 0..11 rejected evaluations carrying the case's own values plus one malformed signal, a quarter of these also by an evaluation handed a damaged graph file (empty node record / cut in half / cut 3 bytes short / header only; its failure is contained) — the result must not depend on that history; a quarter of those cases evaluate a same-length sibling of the graph file (one constant deep in the node section changed) first and then the bundled graph as re-stored by zerokit's own serializer. \
          non-trivial = accepted by the reference and some input on a limb boundary or within 70000 of p or p/2; distinct by case content".into()
     }
     fn level(&self) -> &'static str {
@@ -167,7 +171,7 @@ impl Property for C05 {
     fn strategy(&self, _tier: Tier, _shard: usize) -> BoxedStrategy<Case> {
         let pre = prop_oneof![
             3 => Just(None),
-            2 => (1u8..4, 0u8..4, 0u8..12, prop_oneof![3 => Just(false), 1 => Just(true)]).prop_map(|(change, malformed, reps, sibling_graph)| Some(Pre { change, malformed, reps, sibling_graph })),
+            2 => (1u8..4, 0u8..4, 0u8..16, prop_oneof![3 => Just(false), 1 => Just(true)]).prop_map(|(change, malformed, reps, sibling_graph)| Some(Pre { change, malformed, reps: reps % 12, sibling_graph, damaged_graph: if reps >= 12 { reps % 4 + 1 } else { 0 } })),
         ];
         (c05_wit(), any::<u16>(), pre).prop_map(|(w, order, pre)| Case { w, order, pre }).boxed()
     }
@@ -217,6 +221,12 @@ impl Property for C05 {
             }
             if pre.change & 2 != 0 {
                 pw.e = Fx(pw.e.0 + one.0);
+            }
+            // (0) an evaluation handed a damaged graph file
+            if pre.damaged_graph > 0 {
+                o.label("after-a-damaged-graph-file");
+                let g = damaged_graph(pre.damaged_graph - 1);
+                let _ = guarded(|| rln::circuit::calculate_rln_witness(named_inputs(&c.w), &g));
             }
             // (1) a valid evaluation of the related assignment (its result is C05's business in its own case)
             let _ = guarded(|| rln::circuit::calculate_rln_witness(named_inputs(&pw), graph_bytes()));
